@@ -188,7 +188,87 @@ class Delaunay:
         raise UnmodelledDependency("Delaunay.simplices on symbolic points")
 
 
-ConvexHull = _unmodelled("scipy.spatial.ConvexHull")
+_VOLUME_CACHE = {}
+
+
+class ConvexHull:
+    """A4: scipy.spatial.ConvexHull(P).
+    * concrete P: the REAL qhull is run on the float values (equations / vertices / simplices / volume are its output);
+    * symbolic P: `equations` are fresh symbols (one row (normal, offset) per facet; the facet count is the contract's
+      ghost parameter hints['hull_facets'], default d+1) constrained by  n_f . p_i + d_f <= 0  for every input point
+      (the hull contains its points); `vertices` must be supplied as a ghost hint hints['hull_vertices'];
+      `volume` is an uninterpreted non-negative quantity of the point set (same points => same volume);
+    QhullError iff fewer than d+1 points or affinely degenerate (as for Delaunay)."""
+
+    def __init__(self, points, incremental=False, qhull_options=None):
+        _trust("scipy.spatial.ConvexHull: equations describe conv(P) (every point satisfies every facet inequality), vertices index the extreme points, volume = Lebesgue volume; QhullError iff degenerate input")
+        P = _base(to_symarray(_np.asarray(points) if not isinstance(points, _np.ndarray) else points))
+        if P.dtype != object:
+            P = _base(to_symarray(P.astype(float)))
+        if P.ndim != 2:
+            raise ValueError("Input points array must have 2 dimensions.")
+        npts, dim = P.shape
+        if dim < 2:
+            raise ValueError("Need at least 2-D data")
+        self.points = P.view(SymArray)
+        self.ndim, self.npoints = dim, npts
+        concrete = all(isinstance(e, SymReal) and e.concrete for e in P.ravel().tolist())
+        if concrete:
+            import scipy.spatial
+
+            Pf = _np.array([[float(e.c) for e in row] for row in P])
+            real = scipy.spatial.ConvexHull(Pf, qhull_options=qhull_options)  # raises QhullError itself
+            self.equations = to_symarray(real.equations)
+            self.vertices = real.vertices.copy()
+            self.simplices = real.simplices.copy()
+            self.volume = SymReal(float(real.volume))
+            self.area = SymReal(float(real.area))
+            return
+        if _hull_degenerate(P, "ConvexHull"):
+            raise _qhull_error()("QH6154 Qhull precision error: Initial simplex is flat (A4 contract: degenerate input)")
+        sink = CTX.sink
+        k = sink.hull_count = getattr(sink, "hull_count", 0) + 1 if sink is not None else 0
+        nfac = (sink.hints.get("hull_facets") if sink is not None else None) or dim + 1
+        E = _np.empty((nfac, dim + 1), dtype=object)
+        from .sym import sym_and, sym_or
+
+        conds = []
+        for f in range(nfac):
+            for j in range(dim + 1):
+                E[f, j] = SymReal(CTX.fresh(f"hull{k}.eq[{f},{j}]"))
+            conds.append(sym_or([E[f, j] != 0 for j in range(dim)]))
+            for i in range(npts):
+                conds.append(_sumlist([E[f, j] * P[i, j] for j in range(dim)]) + E[f, dim] <= 0)
+        CTX.add(sym_and(conds).z, "axiom")
+        self.equations = E.view(SymArray)
+        self._vertices = sink.hints.get("hull_vertices") if sink is not None else None
+        key = tuple(SymReal.lift(e).z.get_id() for e in P.ravel().tolist())
+        if key not in _VOLUME_CACHE:
+            v = z3.Real(f"Vol!{len(_VOLUME_CACHE)}")
+            _VOLUME_CACHE[key] = v
+        self._vol = _VOLUME_CACHE[key]
+        CTX.axiom(("vol", self._vol.get_id()), self._vol > 0)
+        self.volume = SymReal(self._vol)
+
+    @property
+    def vertices(self):
+        if getattr(self, "_vertices", None) is None:
+            raise UnmodelledDependency("ConvexHull.vertices of symbolic points without a ghost hint")
+        return _np.asarray(self._vertices, dtype=int)
+
+    @vertices.setter
+    def vertices(self, v):
+        self._vertices = v
+
+    @property
+    def simplices(self):
+        if getattr(self, "_simplices", None) is None:
+            raise UnmodelledDependency("ConvexHull.simplices of symbolic points")
+        return self._simplices
+
+    @simplices.setter
+    def simplices(self, v):
+        self._simplices = v
 class interp1d:
     """A4: scipy.interpolate.interp1d(kind='linear', assume_sorted=False): the piecewise-linear interpolant
     through the knots sorted by x; outside [min x, max x]: fill_value (bounds_error=False) or ValueError."""
@@ -272,8 +352,62 @@ PCA = _unmodelled("sklearn.decomposition.PCA")
 Generator = _unmodelled("numpy.random.Generator")
 
 
-def solve_qp(*a, **k):
-    raise UnmodelledDependency("quadprog.solve_qp")
+class QPFact:
+    """quadprog.solve_qp contract: x* minimises 1/2 x^T G x - a^T x subject to C^T x >= b (first meq rows equalities)"""
+
+    def __init__(self, G, a, C, b, meq, xstar):
+        self.G, self.a, self.C, self.b, self.meq, self.xstar = G, a, C, b, meq, xstar
+
+    def objective(self, x):
+        n = len(x)
+        q = _sumlist([x[i] * self.G[i, j] * x[j] for i in range(n) for j in range(n) if not (isinstance(self.G[i, j], SymReal) and self.G[i, j].c == 0)])
+        return q / 2 - _sumlist([self.a[i] * x[i] for i in range(n)])
+
+    def feasible(self, x):
+        from .sym import sym_and
+
+        conds = []
+        for f in range(self.C.shape[1]):
+            lhs = _sumlist([self.C[i, f] * x[i] for i in range(len(x))])
+            conds.append(lhs == self.b[f] if f < self.meq else lhs >= self.b[f])
+        return sym_and(conds)
+
+    def instantiate(self, z):
+        """add  feas(z) => obj(x*) <= obj(z)"""
+        z = [SymReal.lift(v) for v in z]
+        f = self.feasible(z)
+        nw = self.objective(self.xstar) <= self.objective(z)
+        CTX.add(z3.Implies(f.z, nw.z), "axiom")
+        return f, nw
+
+
+def solve_qp(G, a, C=None, b=None, meq=0, factorized=False):
+    """A4: quadprog.solve_qp returns the exact minimiser of 1/2 x^T G x - a^T x s.t. C^T x >= b (strictly convex, feasible);
+    with factorized=True the first argument is R^-1 of the Cholesky factor (G = (R^-1)^-T (R^-1)^-1): only the identity is modelled"""
+    _trust("quadprog.solve_qp: exact minimiser of 1/2 x'Gx - a'x s.t. C'x >= b")
+    G_ = _base(to_symarray(_np.asarray(G) if not isinstance(G, _np.ndarray) else G))
+    if factorized:
+        n = G_.shape[0]
+        if not all(SymReal.lift(G_[i, j]).c == (1 if i == j else 0) for i in range(n) for j in range(n)):
+            raise UnmodelledDependency("solve_qp factorized=True with a non-identity factor")
+    a_ = _base(to_symarray(_np.asarray(a) if not isinstance(a, _np.ndarray) else a))
+    C_ = _base(to_symarray(_np.asarray(C) if not isinstance(C, _np.ndarray) else C))
+    b_ = _base(to_symarray(_np.asarray(b) if not isinstance(b, _np.ndarray) else b))
+    n = a_.shape[0]
+    sink = CTX.sink
+    k = len(sink.qp_facts) if sink is not None else 0
+    x = _np.empty(n, dtype=object)
+    for i in range(n):
+        x[i] = SymReal(CTX.fresh(f"qp{k}.x{i}"))
+    fact = QPFact(G_, a_, C_, b_, meq, list(x))
+    feasible = CTX.decide(CTX.fresh(f"qp{k}.feasible", "bool"))
+    fact.infeasible = not feasible
+    if sink is not None:
+        sink.qp_facts.append(fact)
+    if not feasible:
+        raise ValueError("constraints are inconsistent, no solution")
+    CTX.add(fact.feasible(list(x)).z, "axiom")
+    return (x.view(SymArray), fact.objective(list(x)), x.view(SymArray), _np.array([1, 0]), None, None)
 
 
 def default_rng(*a, **k):
